@@ -43,7 +43,7 @@ pub fn peek<T: Copy, S: Copy + Into<u128>>(t: &T) -> u128 {
 }
 
 /// Two's-complement interpretation of the low `n` bits of `pattern`, computed arithmetically.
-pub fn to_signed(pattern: u128, n: u32) -> i128 {
+pub const fn to_signed(pattern: u128, n: u32) -> i128 {
     if n >= 128 {
         if pattern >> 127 == 1 {
             // pattern - 2^128, computed without overflow
